@@ -310,7 +310,7 @@ def main(argv=None):
         dis, bnd = [], []
         for r in results:
             for o in r['obligations'].values():
-                if o['kind'] == 'canary':
+                if o['kind'] == 'canary' or o['status'] != 'discharged':
                     continue
                 (bnd if r.get('bounded') else dis).append(o['name'])
         base[a.prop] = {'discharged': sorted(dis), 'bounded': sorted(bnd)}
